@@ -12,7 +12,7 @@ TB = ('CPython ast; the effect/kernel summaries listed in DESIGN.md section 1;'
 
 CLAIMS = {
     'C13': dict(
-        cat='proof', ref='DESIGN.md section 2, C13',
+        cat='proof', ref='DESIGN.md section 3, C13',
         tech='abstract interpretation of slice code to exact stencil '
              'matrices (affine forms over Fraction) + constructor-argument '
              'role comparison',
@@ -30,7 +30,7 @@ CLAIMS = {
              'rows (stencil width <= 3).  N-d broadcasting through swapaxes '
              'and floating-point rounding are not decided.'),
     'C20': dict(
-        cat='proof', ref='DESIGN.md section 2, C20',
+        cat='proof', ref='DESIGN.md section 3, C20',
         tech='equality/hash key extraction over the resolved class '
              'hierarchy (attribute sets, comparison modes, type tests through'
              ' super() chains), path rule for element() fast paths, '
@@ -49,7 +49,7 @@ CLAIMS = {
              'floating-point data and array-like conversion of arbitrary '
              'inputs are not decided.'),
     'C03': dict(
-        cat='proof', ref='DESIGN.md section 2, C03',
+        cat='proof', ref='DESIGN.md section 3, C03',
         tech='effect/alias dataflow per path over every Operator._call '
              '(typestate of the out buffer, write effects on the input), '
              'path rule over Operator.__call__',
@@ -73,7 +73,7 @@ CLAIMS = {
              'semantics of set_zero are covered only when the value-'
              'numbering rules are listed in the evidence.'),
     'C10': dict(
-        cat='proof', ref='DESIGN.md section 2, C10',
+        cat='proof', ref='DESIGN.md section 3, C10',
         tech='read-after-write typestate under the alias assumption x is '
              'out (effect/alias dataflow with one shared cell)',
         text='For all 13 proximal operator classes, the proximal closure '
@@ -91,7 +91,7 @@ CLAIMS = {
              'reason.  Reviewed exceptions: ProximalHuber masked writes, '
              'ProductSpaceOperator.'),
     'C04': dict(
-        cat='proof', ref='DESIGN.md section 2, C04',
+        cat='proof', ref='DESIGN.md section 3, C04',
         tech='symbolic interpretation of the arithmetic dunders and of the '
              'expression classes own _call in the free vector-space algebra '
              '(value numbering, normal-form equality)',
@@ -108,7 +108,7 @@ CLAIMS = {
              ' linear iff declared; element dunders defer to operator '
              'dunders via __array_priority__.'),
     'C05': dict(
-        cat='other', ref='DESIGN.md section 2, C05',
+        cat='other', ref='DESIGN.md section 3, C05',
         tech='symbolic interpretation of .adjoint and comparison with the '
              'formal adjoint obtained by moving the class denotation through'
              ' the inner product (normal-form equality); space tags; '
@@ -125,7 +125,7 @@ CLAIMS = {
         note='Trusted: ' + TB + '. Only the listed classes; see evidence '
              'per_rule and clauses_not_decided.'),
     'C06': dict(
-        cat='other', ref='DESIGN.md section 2, C06',
+        cat='other', ref='DESIGN.md section 3, C06',
         tech='symbolic interpretation of derivative(x) compared with '
              'symbolic differentiation of the class denotation; elementary-'
              'function derivative table by rational normal forms',
@@ -139,7 +139,7 @@ CLAIMS = {
         note='Trusted: ' + TB + '. Numerical convergence of difference '
              'quotients and array-masking derivatives are not decided.'),
     'C01': dict(
-        cat='proof', ref='DESIGN.md section 2, C01',
+        cat='proof', ref='DESIGN.md section 3, C01',
         tech='symbolic interpretation of _lincomb_impl over the free '
              'vector-space algebra with exhaustive leaf enumeration '
              '(regime x aliasing x scalar class, guards solved or forked), '
@@ -161,7 +161,7 @@ CLAIMS = {
              'same-type dunder dispatch in nested power spaces are not '
              'decided.'),
     'C11': dict(
-        cat='translation_validation', ref='DESIGN.md section 2, C11',
+        cat='translation_validation', ref='DESIGN.md section 3, C11',
         tech='symbolic interpretation of both members of each solver pair '
              'from a generic symbolic state and comparison of normal forms; '
              'n-then-m vs n+m resumption by the same interpretation; '
@@ -182,7 +182,7 @@ CLAIMS = {
              'Iteration counts 1..3 from a generic state; random orderings '
              'are not covered.'),
     'C12': dict(
-        cat='other', ref='DESIGN.md section 2, C12',
+        cat='other', ref='DESIGN.md section 3, C12',
         tech='symbolic execution with forks on the decrease test (path '
              'rule), rational identities for default step sizes, alias '
              '(two names, one cell) dataflow over solver loops, structural '
@@ -199,7 +199,7 @@ CLAIMS = {
         note='Trusted: ' + TB + '. See clauses_not_decided in the '
              'evidence; the claim is limited to the four listed clauses.'),
     'C14': dict(
-        cat='other', ref='DESIGN.md section 2, C14',
+        cat='other', ref='DESIGN.md section 3, C14',
         tech='symbolic interpretation of the partition/grid code on '
              'symbolic coordinate vectors (exact rational identities), '
              'enumeration of index expressions and of the ordering cases of '
@@ -217,7 +217,7 @@ CLAIMS = {
              'and floating-point ties are not decided; sub-partition '
              'constructors insert/append/squeeze are not covered.'),
     'C19': dict(
-        cat='other', ref='DESIGN.md section 2, C19',
+        cat='other', ref='DESIGN.md section 3, C19',
         tech='symbolic interpretation of the rotation-matrix code to '
              'polynomial matrices and reduction modulo cos^2+sin^2=1 / '
              '|axis|=1; symbolic differentiation of detector surfaces; '
@@ -235,7 +235,7 @@ CLAIMS = {
              'counts and the helical detector height are not decided; R5 is '
              'refutation at witness points, not a proof of coverage.'),
     'C18': dict(
-        cat='other', ref='DESIGN.md section 2, C18',
+        cat='other', ref='DESIGN.md section 3, C18',
         tech='symbolic interpretation of the reciprocal-grid and '
              'pre/post-processing formulas with parity case split (exact '
              'rational identities), cross-site agreement, kernel/'
@@ -259,7 +259,7 @@ CLAIMS = {
              'wavelet reconstruction clause are not decided (the latter is '
              'not applicable: a property of PyWavelets).'),
     'C07': dict(
-        cat='other', ref='DESIGN.md section 2, C07',
+        cat='other', ref='DESIGN.md section 3, C07',
         tech='abstract interpretation of the proximal calculus on a model '
              'family (weighted 1-d convex quadratics, exact rational '
              'functions) with an oracle independent of the code; binding '
@@ -278,7 +278,7 @@ CLAIMS = {
              'weight consistency of non-quadratic proximals (F25) and the '
              'Huber proximal on product spaces (F26) are not decided.'),
     'C08': dict(
-        cat='other', ref='DESIGN.md section 2, C08',
+        cat='other', ref='DESIGN.md section 3, C08',
         tech='abstract interpretation of the conjugation rules on the '
              'weighted 1-d quadratic model with the exact conjugate as '
              'oracle; biconjugation; Moreau wiring',
@@ -291,7 +291,7 @@ CLAIMS = {
              'functionals and the pairing of norms/indicators are not '
              'decided; QuadraticForm only for symmetric operators.'),
     'C09': dict(
-        cat='other', ref='DESIGN.md section 2, C09',
+        cat='other', ref='DESIGN.md section 3, C09',
         tech='abstract interpretation of gradient rules on the weighted 1-d '
              'model against d/dt of the class denotation (Riesz '
              'representative); Lipschitz inequality refuted by rational '
@@ -308,7 +308,7 @@ CLAIMS = {
         note='Trusted: ' + TB + '. Non-smooth points and functionals whose '
              'values are not interpretable on the line are not decided.'),
     'C16': dict(
-        cat='other', ref='DESIGN.md section 2, C16',
+        cat='other', ref='DESIGN.md section 3, C16',
         tech='symbolic interpretation of resize_array and its padding '
              'helpers on 1-d arrays with symbolic entries to exact matrices;'
              ' comparison with an oracle derived from the named boundary '
@@ -329,7 +329,7 @@ CLAIMS = {
              'adjoint identity on non-uniformly weighted spaces are not '
              'decided.'),
     'C15': dict(
-        cat='other', ref='DESIGN.md section 2, C15',
+        cat='other', ref='DESIGN.md section 3, C15',
         tech='symbolic interpretation of the interpolator classes and public'
              ' factories on grids with symbolic nodes and node values, one '
              'evaluation per ordering case of each query coordinate with '
@@ -368,7 +368,7 @@ CLAIMS = {
              'callables (tensor-valued sampling), larger shapes than the '
              'small concrete ones, rounding.'),
     'C02': dict(
-        cat='other', ref='DESIGN.md section 2, C02',
+        cat='other', ref='DESIGN.md section 3, C02',
         tech='symbolic interpretation of the weighting classes, their '
              'helper pipelines, the base-class defaults and '
              'DiscretizedSpace._inner/_norm/_dist on small arrays with '
@@ -405,7 +405,7 @@ CLAIMS = {
              'covered; floating-point agreement of BLAS and NumPy is not '
              'decided.'),
     'C17': dict(
-        cat='other', ref='DESIGN.md section 2, C17',
+        cat='other', ref='DESIGN.md section 3, C17',
         tech='symbolic interpretation of the __array_ufunc__ '
              'implementations, writable_array, the array protocol methods '
              'and the legacy ufuncs wrappers with an uninterpreted ufunc '
